@@ -74,6 +74,101 @@ CLAIMED = {
         "technique": "Coq proof (radix/bit-list algebra, checksummed bijection) + regenerated word list + checked correspondence",
         "design": "DESIGN.md section 8 / C10",
     },
+    "C06": {
+        "text": "Machine-checked proof (Coq 8.16.1), full strength: for every byte string s, the library's decode+validity check accepts s "
+                "IFF the BIP173/BIP350 validity predicate transcribed from the BIPs does (decode_valid s = Ok r <-> spec_decode s = Some r: "
+                "length, case, separator, charset, Bech32 checksum for v0 / Bech32m for v1-16, 5-to-8 regrouping with <5 zero padding bits, "
+                "program length rules, hrp in {bc,tb,bcrt}); for every network, version 0..16 and allowed program the encoder output "
+                "decodes back to (hrp, version, program), is <= 90 characters and is accepted; the checksum is sound by polymod linearity; "
+                "is_segwit_addr / is_addr return a boolean for EVERY byte string (KeyError/IndexError/OverflowError proved unreachable). "
+                "Charset, generators and constants are regenerated from the code and proved equal to the BIP's. Correspondence: all "
+                "(network, version, length) triples, exhaustive 1-2 substitutions on short addresses, case/padding/constant/hrp classes, "
+                "every byte in the version position, BIP vector lists, an independent reference codec.",
+        "note": "Theorems are about the hand-written model of bip173.py/bip350.py and the segwit functions of utils.py; sha256 arbitrary "
+                "(only in is_addr through Base58Check). CPython bytes.isupper/islower/lower/split modelled from documentation and "
+                "exercised on every case. Trusted: Coq kernel, extraction, harness.",
+        "technique": "Coq proof (N-bit-level polymod linearity, radix regrouping, iff with the BIP predicate) + regenerated constants + correspondence",
+        "design": "DESIGN.md section 8 / C06",
+    },
+    "C13": {
+        "text": "Machine-checked proof (Coq 8.16.1), full strength: for every list of defined non-push opcode names and non-empty data "
+                "items (< 2^32 bytes) script() produces the reference assembly and decode_script returns the same list up to aliases; every "
+                "data item gets the shortest valid push (direct / PUSHDATA1 / 2 / 4) with an exact little-endian length; for every "
+                "canonically encoded script re-assembling the disassembly returns the same bytes; decode_script always terminates; the "
+                "witness-stack codec uses CompactSize count and lengths and round-trips with any trailing bytes; each of the 20 template "
+                "builders emits exactly the template written from the developer guide / BIP16 / BIP141 for all argument sizes in the "
+                "property's quantifier. The opcode table (117 names, INT_OP_MAP) is regenerated from the code and proved equal to the "
+                "reference table. Correspondence: 109 generator classes (all opcodes, length boundaries, all m-of-n, signatures 8..73, "
+                "scripts 1..600, stacks to 70000-byte items), independent Python assembler/disassembler.",
+        "note": "Theorems are about the hand-written string-level model of script/utils.py (hex parsing, getattr dispatch, lenient slicing "
+                "modelled as written); builders that hand-write one length byte carry the explicit premise 1..75 bytes (keys, signatures, "
+                "hashes are inside it). Trusted: Coq kernel, extraction, harness.",
+        "technique": "Coq proof (codec round trips, minimal-push optimality, template refinement) + regenerated opcode table + correspondence",
+        "design": "DESIGN.md section 8 / C13",
+    },
+    "C14": {
+        "text": "Machine-checked proof (Coq 8.16.1): SEC1 - for every curve point both encodings decode to it and re-encode to the same bytes; "
+                "point() accepts EXACTLY the valid encodings (33 bytes 02/03 with x<p, x^3+7 a square, y of that parity; 65 bytes 04 with "
+                "x,y<p on the curve) and rejects everything else with AssertionError/ValueError so is_point is total; WIF - round trip for "
+                "3 networks x 8 types x any suffix, accepted iff checksum-valid Base58Check with a table version byte, encoder refuses "
+                "invalid keys; ASN.1 parse/encode round trip on the one-byte-length domain; PEM - private keys (leading zeros kept) and both "
+                "public forms round-trip and the DER bytes equal the RFC 5915 / RFC 5480 encodings written from the RFCs. WIF tables and "
+                "OIDs regenerated from the code (= Spec). Correspondence: structured SEC1 candidates of all lengths 0..70, exhaustive x "
+                "on small curves, WIF corruptions, PEM both ways against OpenSSL (python cryptography).",
+        "note": "PARTIAL: square-root facts (p = 3 mod 4, Euler criterion, no order-2 point) are the explicit premise sec1_facts for "
+                "secp256k1 and are proved by computation for p = 43, 79, 67; base64 is an oracle with the hypothesis decode(encode x) = x; "
+                "OpenSSL interoperability is decided by the correspondence only. Trusted: Coq kernel, extraction, harness, OpenSSL.",
+        "technique": "Coq proof (accept-iff with a SEC1 spec, codec round trips, RFC byte equality) + regenerated tables + correspondence",
+        "design": "DESIGN.md section 8 / C14",
+    },
+    "C17": {
+        "text": "Machine-checked proof (Coq 8.16.1) over a socket model (stream + arbitrary schedule of positive chunk sizes): for every "
+                "command of the table, payload <= MAX_SIZE, trailing bytes and EVERY fragmentation, recv_msg returns exactly (magic, command, "
+                "payload), leaves exactly the trailing bytes (no over-read, so back-to-back messages never bleed) and uses at most 24+|p| "
+                "recv calls; anything accepted has the expected magic, the declared length and checksum = HASH256(payload)[:4]; flipped "
+                "magic/checksum are rejected (payload/length under the explicit no-32-bit-collision premise), a changed command field "
+                "passes with the unchanged payload; if the stream ends early at ANY offset the call terminates with ConnectionError "
+                "within |stream|+1 reads (no FuelE for any stream/schedule); version/ping/getheaders/inv/addr builders and parsers "
+                "invert each other on everything the builders can produce. Magics, COMMANDS, sizes, inventory ids regenerated (= Spec). "
+                "Correspondence: scripted socket with a call counter, all compositions of short streams, bit flips per region, EOF at "
+                "every offset, payloads to 70000 bytes, codec fields over full ranges.",
+        "note": "Real socket blocking/timeouts are not modelled (recv always returns). sha256 arbitrary with 32-byte output. The version "
+                "PARSER deviates from the wire format outside what the library's own builder produces (binary IP fields, user agent >= 253 "
+                "bytes, absent relay byte): stated as _refuted theorems, outside the property (built payloads). Trusted: Coq kernel, "
+                "extraction, harness.",
+        "technique": "Coq proof (induction on bytes still wanted over all chunk schedules, codec round trips) + regenerated tables + correspondence",
+        "design": "DESIGN.md section 8 / C17",
+    },
+    "C19": {
+        "text": "Machine-checked proof (Coq 8.16.1) over a file-store model (file number -> bytes, primitive trace Open/Write/Close): after "
+                "ANY history of batches the concatenation of the files in numeric order = the previous content followed by one record "
+                "magic||le32(len)||block per block in order, nothing else; no file exceeds the limit when every record fits; a new "
+                "consecutively numbered file is started exactly when the next record does not fit; earlier content is only ever "
+                "extended; truncating the primitive trace at ANY point leaves a byte prefix of the record stream with all earlier blocks "
+                "intact; splitting a batch across restarts changes nothing; blkNNNNN.dat lexicographic order = numeric order below 100000 "
+                "files. Correspondence: the real function in scratch directories with the limit scaled down, histories exhaustive over "
+                "a size alphabet, pre-populated directories incl. 12 files, crash injection at every open/write/close.",
+        "note": "Torn writes inside one write(), buffering/fsync and directory durability are below the model; premises: directory holds "
+                "only blkNNNNN.dat files, fewer than 100000 (refuted beyond, stated), blocks < 4 GiB. Trusted: Coq kernel, extraction, "
+                "harness.",
+        "technique": "Coq proof (invariant over histories, prefix property of primitive traces, fixed-width radix order) + correspondence with crash injection",
+        "design": "DESIGN.md section 8 / C19",
+    },
+    "C20": {
+        "text": "Machine-checked proof (Coq 8.16.1): for every byte string and every pair of formats raw/hex/bin, converting and converting "
+                "back returns the original bytes (empty string and leading zeros included, any whitespace line separator); hex/bin input "
+                "with an odd nibble / non-multiple-of-8 bit count is zero left-padded and surrounding whitespace ignored; for every option "
+                "and subcommand accepting it the effective value is CLI value if given, else config file value (TOML over JSON when TOML "
+                "is supported), else the built-in default - proved for ANY option table under marks_explicit, and the table GENERATED from "
+                "the real argparse tree on every run is proved to satisfy marks_explicit for every configurable option of every "
+                "subcommand; unknown config keys are ignored. Correspondence: bits.__main__.main() in-process over the product of layers x "
+                "options x 21 (sub)parsers with both TOML branches, conversions exhaustive to length 2-3 and random to 64 bytes.",
+        "note": "argv tokenisation by argparse is not modelled (the command line is the list of (dest, value) pairs after the subcommand "
+                "name); config files are modelled after parsing; int(s,2)/fromhex/str.strip modelled from CPython semantics incl. "
+                "Unicode digits via an oracle. Trusted: Coq kernel, extraction, harness.",
+        "technique": "Coq proof (radix round trips, precedence refinement) + option table regenerated by parser introspection + correspondence",
+        "design": "DESIGN.md section 8 / C20",
+    },
     "C11": {
         "text": "Machine-checked proof (Coq 8.16.1): for every well-formed transaction, input index, amount < 2^64, scriptCode, version, "
                 "locktime and each of the six standard sighash types, the model of bip143.witness_message (slicing the serialised inputs "
